@@ -3,10 +3,10 @@
    Only statements, closed by [exact lemma], with Print Assumptions beneath. *)
 From Coq Require Import String List NArith ZArith Bool Lia ZifyN ZifyNat ZifyBool.
 From J5V.lib Require Import Outcome Json JsonPrint Base64 Civil Decimal.
-From J5V.model Require Import CodecTypes CodecEnc CodecEncSpec CodecEncDec.
+From J5V.model Require Import CodecTypes CodecEnc CodecEncSpec CodecEncDec CodecFloatInt.
 From J5V.model Require CodecDecScalar CodecDec CodecDecTree.
 From J5V.proofs Require CodecDecTime CodecDecDecimal.
-From J5V.proofs Require Import CodecEncProofs CodecEncDecProofs CodecEncTotal CodecEncDecTie CodecEncLex CodecEncInner CodecEncRep CodecEncRepTie.
+From J5V.proofs Require Import CodecEncProofs CodecEncDecProofs CodecEncTotal CodecEncDecTie CodecEncLex CodecEncInner CodecEncRep CodecEncRepTie CodecFloatIntProofs.
 Import ListNotations.
 Local Open Scope N_scope.
 
@@ -366,6 +366,20 @@ Example C01_bytes_scalars_example :
   msg_get 1 sc_back = msg_get 1 sc_msg /\ msg_get 2 sc_back = msg_get 2 sc_msg /\ msg_get 4 sc_back = msg_get 4 sc_msg /\
   msg_get 3 sc_back = Some (VMsg [(1, VStr [49; 46; 53])]).
 Proof. repeat split; vm_compute; reflexivity. Qed.
+
+(* ---------------------------------------------------------------- the float laws on a sub-domain
+   float_text_ok and float_roundtrip are premises of the theorems above (laws of strconv, exercised on
+   every run, never proved of strconv).  On the sub-domain of integer-valued floats of magnitude below
+   10^5 (both widths, both signs, -0 included) they are PROVED for a model of FormatFloat(v,'g',-1,w) /
+   ParseFloat (model/CodecFloatInt.v: such a float prints as its decimal digits, the literal parses to
+   the exact float), and that model is compared with strconv on the sub-domain on every run (stream
+   CFloatInt): the pattern is finite, the text is a JSON number, and it reads back to the same bits. *)
+Theorem C01_float_laws_on_small_integers : forall is32 neg n, (n < small_bound)%N ->
+  let bits := float_of_int is32 neg n in
+  float_finite is32 bits = true /\
+  exists txt, fmt_small is32 bits = Some txt /\ valid_number txt = true /\ parse_small is32 txt = Some bits.
+Proof. exact float_laws_small. Qed.
+Print Assumptions C01_float_laws_on_small_integers.
 
 (* ---------------------------------------------------------------- the preconditions, decided *)
 (* EnumSchema.OptionByName inverts OptionByNumber on every enum whose option names are distinct:
